@@ -69,6 +69,11 @@ func NewTimerWheel[K comparable, V any](size uint) *TimerWheel[K, V] {
 
 func (tw *TimerWheel[K, V]) findIndex(expire int64) (int, int) {
 	duration := expire - tw.nanos
+	if duration < 0 {
+		// deadline already behind the wheel (a TTL update applied late):
+		// use the current tick's slot so the next advance finds the entry
+		expire = tw.nanos
+	}
 	for i := 0; i < 5; i++ {
 		if duration < int64(tw.spans[i+1]) {
 			ticks := expire >> int(tw.shift[i])
